@@ -247,7 +247,7 @@ func checkC07(c *Ctx) {
 	c.importFrom(checkC11, "C07.9", "C11.2")
 	// "only on evidence": the certificates that move views and the high QC are accepted only with distinct, known,
 	// key-proven signers whose keys were all found (shared with C02.4, C02.5, C02.6)
-	c.importFrom(checkC02, "C07.10", "C02.4", "C02.5", "C02.6")
+	c.importFrom(checkC02, "C07.10", "C02.4", "C02.5", "C02.6", "C02.8/width")
 
 	// C07.8 lock discipline of the shared view state
 	c.checkGuard("C07.8", guards["ViewStates"])
